@@ -110,9 +110,11 @@ func c13ExecOn(v *vm.VM, script []byte) c13Result {
 		}
 		res.Steps++
 	})
-	v.LoadScript(script)
 	var err error
-	res.Panic = catch(func() { err = v.Run() })
+	res.Panic = catch(func() {
+		v.LoadScript(script) // (panics when the invocation stack was not emptied by Reset)
+		err = v.Run()
+	})
 	if err != nil {
 		res.ErrStr = err.Error()
 		if len(res.ErrStr) > 120 {
@@ -150,8 +152,10 @@ func c13ExecReused(script []byte, base, limitDatoshi int64, preds []c13Pred) (c1
 		pb := p.base
 		v.SetPriceGetter(func(op opcode.Opcode, _ []byte) int64 { return fee.Opcode(pb, op) })
 		v.SetGasLimit(p.limit)
-		v.LoadScript(p.script)
-		if pn := catch(func() { _ = v.Run() }); pn != "" {
+		if pn := catch(func() {
+			v.LoadScript(p.script)
+			_ = v.Run()
+		}); pn != "" {
 			return c13Result{Panic: "predecessor " + p.tag + ": " + pn}, p.tag
 		}
 		tags += p.tag + " "
